@@ -276,6 +276,10 @@ func (dec *Decoder) decodeMB(tokenBR *bitio.BoolReader) error {
 
 	if !skip {
 		dec.parseResiduals(mb, left, block, tokenBR)
+		// A macroblock without any non-zero coefficient counts as skipped
+		// for the loop filter even when its skip flag was not set (RFC 6386
+		// section 15; libwebp: skip = ParseResiduals(...)).
+		skip = (block.NonZeroY | block.NonZeroUV) == 0
 	} else {
 		left.Nz = 0
 		mb.Nz = 0
